@@ -254,7 +254,10 @@ def certvalidate (input implOut : Json) : Option (Json × Bool) := do
   -- a root of trust that is not a public key at all cannot be constructed: an error, no verdicts
   let rootOk := (input.get? "root_ok").bind Json.asBool? != some false
   let model := if rootOk then
-      (Spec.CertOps.validateAll root els targets (input.get? "links") (input.get? "values")).getD (.str "error")
+      (Spec.CertOps.validateAll root els targets
+        (match input.get? "facts" with
+         | some f => Spec.CertOps.linksOfFacts (some f)
+         | none => input.get? "links") (input.get? "values")).getD (.str "error")
     else .str "error"
   pure (model, model.normalize == implOut.normalize)
 
